@@ -714,4 +714,106 @@ def rowsSpec (r : CRec) (n : Nat) : List CRec :=
     | .col vs => (vs[i]?).map (fun v => (kv.1, Cell.val v))
     | .val _ => none))
 
+/-! # Phase 4 -/
+
+/-! ## A pipeline `… → shared Cache → D` (`Environments(env).cache().take(n)`, `.chunk().slice(…)`, …)
+
+Every pipeline built on one `.cache()`d environment shares ONE `pipes.Cache` object.  A read of
+such a pipeline pulls `need` items (`none` = to the end) from a generator of that object and then
+drops it (closed by the consumer, garbage collected or still alive — `pipes.Cache` keeps its source
+iterator in all three cases); the downstream filter `D` sees exactly what it pulled. -/
+def cachedRead {α β} (nSlice : Nat) (items : List α) (st : Option (CacheSt α)) (need : Option Nat)
+    (D : List α → β) : Option (CacheSt α) × β :=
+  let r := cacheRead nSlice items st need
+  (r.1, D r.2)
+
+/-- a history of reads `(need, D)` of pipelines that share one Cache object -/
+def cachedRun {α β} (nSlice : Nat) (items : List α) :
+    Option (CacheSt α) → List (Option Nat × (List α → β)) → List β
+  | _, [] => []
+  | st, r :: rs => let o := cachedRead nSlice items st r.1 r.2; o.2 :: cachedRun nSlice items o.1 rs
+
+/-- how many items of its input a complete read of `Take(count)` pulls (`islice(items, count)`) -/
+def takeNeed (count : Option Nat) : Option Nat := count
+
+/-- how many items of its input a complete read of `Slice(start, stop, step)` pulls -/
+def sliceNeed (stop : Option Nat) : Option Nat := stop
+
+/-- the round-g seeded change (`self._iter = None` in a `finally:`): leaving the generator in ANY way,
+an abandoned read included, drops the source iterator, so the partial cache counts as complete -/
+def cacheReadSealing {α} (nSlice : Nat) (items : List α) (st : Option (CacheSt α)) (k : Option Nat) :
+    Option (CacheSt α) × List α :=
+  match k with
+  | some 0 => (st, [])
+  | _ => let r := cacheRead nSlice items st k
+         (r.1.map (fun c => { c with rest := none }), r.2)
+
+def cacheRunSealing {α} (nSlice : Nat) (items : List α) : Option (CacheSt α) → List (Option Nat) → List (List α)
+  | _, [] => []
+  | st, k :: ks => let r := cacheReadSealing nSlice items st k; r.2 :: cacheRunSealing nSlice items r.1 ks
+
+/-! ## The `Environments.<shortcut>` → filter-class(arguments) table the model assumes
+
+`harness/props/c09.py::pre_build` extracts the same table from the CURRENT coba source into
+`Generated/C09Shortcuts.lean`; `shortcuts_wired_as_modelled` proves the two equal.  A signature is
+a list of `(parameter, default)` (`""` = no default, `"*"` = the keyword-only marker); an argument of
+a constructor call is `(keyword, expression)` (`""` = positional) where `$p` is parameter `p` of the
+shortcut and `each($p)` an element of it (one filter object per element). -/
+structure ShortcutRow where
+  method : String
+  sig : List (String × String)
+  calls : List (String × List (String × String))
+deriving DecidableEq, Repr
+
+structure CtorRow where
+  cls : String
+  /-- where `__init__` is defined: `environments`, `pipes.<Class>` or `none` (no constructor) -/
+  src : String
+  sig : List (String × String)
+deriving DecidableEq, Repr
+
+def shortcutTable : List ShortcutRow := [
+  { method := "shuffle", sig := [("*args", ""), ("**kwargs", "")], calls := [("Shuffle", [("", "each($seeds)")])] },
+  { method := "sort", sig := [("*keys", "")], calls := [("Sort", [("", "*$keys")])] },
+  { method := "riffle", sig := [("spacing", ""), ("seed", "1")], calls := [("Riffle", [("", "$spacing"), ("", "$seed")])] },
+  { method := "params", sig := [("params", "")], calls := [("Params", [("", "$params")])] },
+  { method := "take", sig := [("n_interactions", ""), ("strict", "False")], calls := [("Take", [("", "$n_interactions"), ("", "$strict")])] },
+  { method := "slice", sig := [("start", ""), ("stop", "None"), ("step", "1")], calls := [("Slice", [("", "$start"), ("", "$stop"), ("", "$step")])] },
+  { method := "reservoir", sig := [("n_interactions", ""), ("seeds", "1"), ("strict", "False")], calls := [("Reservoir", [("", "$n_interactions"), ("strict", "$strict"), ("seed", "each($seeds)")])] },
+  { method := "where", sig := [("*", ""), ("n_interactions", "None"), ("n_actions", "None"), ("n_features", "None")], calls := [("Where", [("n_interactions", "$n_interactions"), ("n_actions", "$n_actions"), ("n_features", "$n_features")])] },
+  { method := "batch", sig := [("batch_size", ""), ("batch_type", "'list'")], calls := [("Batch", [("", "$batch_size"), ("", "$batch_type")])] },
+  { method := "chunk", sig := [("cache", "True")], calls := [("Chunk", [])] },
+  { method := "unbatch", sig := [], calls := [("Unbatch", [])] },
+  { method := "cache", sig := [], calls := [("Cache", [("", "25")])] }]
+
+def ctorTable : List CtorRow := [
+  { cls := "Shuffle", src := "pipes.Shuffle", sig := [("seed", "")] },
+  { cls := "Sort", src := "environments", sig := [("*keys", "")] },
+  { cls := "Riffle", src := "environments", sig := [("spacing", "3"), ("seed", "1")] },
+  { cls := "Params", src := "environments", sig := [("params", "")] },
+  { cls := "Take", src := "pipes.Take", sig := [("count", ""), ("strict", "False")] },
+  { cls := "Slice", src := "pipes.Slice", sig := [("start", ""), ("stop", ""), ("step", "1")] },
+  { cls := "Reservoir", src := "pipes.Reservoir", sig := [("count", ""), ("strict", "False"), ("seed", "1")] },
+  { cls := "Where", src := "environments", sig := [("*", ""), ("n_interactions", "None"), ("n_actions", "None"), ("n_features", "None")] },
+  { cls := "Batch", src := "environments", sig := [("batch_size", ""), ("batch_type", "'list'")] },
+  { cls := "Unbatch", src := "none", sig := [] },
+  { cls := "Chunk", src := "none", sig := [] },
+  { cls := "Cache", src := "pipes.Cache", sig := [("n_slice", "25"), ("protected", "False")] },
+  { cls := "Identity", src := "none", sig := [] }]
+
+/-- the expression of shortcut `m` that reaches constructor parameter `p` of filter class `cls`
+(keyword arguments by name, positional ones by the position of `p` in the constructor's signature) -/
+def feeds (shortcuts : List ShortcutRow) (ctors : List CtorRow) (m cls p : String) : Option String :=
+  match shortcuts.find? (fun r => r.method == m), ctors.find? (fun r => r.cls == cls) with
+  | some r, some c =>
+    match r.calls.find? (fun k => k.1 == cls) with
+    | none => none
+    | some call =>
+      match call.2.find? (fun a => a.1 == p) with
+      | some a => some a.2
+      | none =>
+        let names := (c.sig.map (·.1)).filter (fun n => n != "*")
+        ((((call.2.filter (fun a => a.1 == "")).map (·.2)).zip names).find? (fun q => q.2 == p)).map (·.1)
+  | _, _ => none
+
 end Coba.C09
